@@ -18,7 +18,7 @@ try:
         meta = json.load(open(sd + '/meta.json'))
         prop = meta.get('property', sid[:3])[:3]
         key = sid
-        extra = {'C01b': ['C11'], 'C02b': ['C10'], 'C05b': ['C10'], 'C04b': ['C10'], 'C06': ['C10'], 'C07': ['C10'], 'C08': ['C10'], 'C10b': ['C08'], 'C11b': ['C16'],
+        extra = [] if os.environ.get('SWEEP_OWN_ONLY') else {'C01b': ['C11'], 'C02b': ['C10'], 'C05b': ['C10'], 'C04b': ['C10'], 'C06': ['C10'], 'C07': ['C10'], 'C08': ['C10'], 'C10b': ['C08'], 'C11b': ['C16'],
                  'C16': ['C12'], 'C16b': ['C12'], 'C20': ['C02'], 'C20b': ['C03'], 'C15b': ['C12'],
                  'R2-C10': ['C05'], 'R4-C06': ['C10'], 'R4-C08b': ['C11'], 'R4-C10b': ['C15'], 'R4-C12b': ['C17'], 'R4-C13': ['C16'], 'R4-C14': ['C16'], 'R4-C15': ['C11'], 'R4-C16': ['C17'], 'R4-C19': ['C17'],
                  'R4-C20': ['C11'], 'R4-C20b': ['C02'], 'R4-C01b': ['C10'], 'R4-C03': ['C10'], 'R4-C04': ['C10'], 'R4-C11': ['C12'], 'R4-C17b': ['C11'],
@@ -34,8 +34,9 @@ try:
             print(sid, c, 'rc=%d' % r.returncode, '%ds' % out[c]['seconds'], (first[0][:200] if first else ''), flush=True)
         subprocess.run(['git', '-C', WT, 'checkout', '--', '.'], check=True)
         res[sid] = out
-        meta['checks_quick'] = {c: ('caught' if v['rc'] == 1 else 'missed' if v['rc'] == 0 else 'error') for c, v in out.items()}
-        meta['checks_detail'] = out
+        meta = json.load(open(sd + '/meta.json'))
+        meta.setdefault('checks_quick', {}).update({c: ('caught' if v['rc'] == 1 else 'missed' if v['rc'] == 0 else 'error') for c, v in out.items()})
+        meta.setdefault('checks_detail', {}).update(out)
         json.dump(meta, open(sd + '/meta.json', 'w'), indent=1)
 finally:
     subprocess.run(['git', '-C', '/repo', 'worktree', 'remove', '--force', WT])
